@@ -16,7 +16,7 @@ const (
 	vkObj
 	vkArr
 	vkRef
-	vkAllOf  // allOf [ $ref ] plus own properties
+	vkAllOf   // allOf [ $ref ] plus own properties
 	vkUntyped // no type at all
 )
 
@@ -497,7 +497,6 @@ func vSpecWithResponse(root *vNode, defs vDefs) *spec.Swagger {
 	return sw
 }
 
-
 // ---- focus/background symbolisation --------------------------------------------------
 // To keep the number of paths linear in the size of the schema, one run makes ONE slot
 // (a leaf's constraint group, an array's item counts, or one property's required flag)
@@ -581,8 +580,9 @@ func vFillSlot(sl vSlot, tag string, present bool, free bool) {
 }
 
 // vPair builds the old and new descriptor trees for template t:
-//   edit == 0: the slot numbered focus (if in range) is independently symbolic on both sides
-//   edit  > 0: structural edit on the new side (new nodes get free symbolic slots)
+//
+//	edit == 0: the slot numbered focus (if in range) is independently symbolic on both sides
+//	edit  > 0: structural edit on the new side (new nodes get free symbolic slots)
 func vPair(t, edit, focus int, bg bool) (*vNode, vDefs, *vNode, vDefs, bool) {
 	return vPair2(t, edit, focus, -1, bg)
 }
